@@ -460,3 +460,75 @@ contract(f"{DS}:DesignRectangle.__init__",
                                               E.geometric_constraints.b_min <= E.geometric_constraints.b_max_x))],
          ensures=[("fields-on-the-land-with-spacing-at-least-b_min", _rect_design_fields)],
          returns=NoneT()).applies = lambda env: False
+
+
+# ---- bi_rectangular: the n_1 x n_2 family for one short-side spacing (called by bi_rectangle_nested with length_x >= length_y) ---------------------------------
+def _bi_field_ok(E, f):
+    """on the land (in the orientation the caller asked for) with spacing >= b_min along the long side and >= b_2 along the short side"""
+    b2 = E.length_y / to_real(_bi_n2(E) - 1)
+    return If(E.transpose, And(BOX(f, 0, 0, E.length_y, E.length_x), SEP(f, b2, E.b_min)), And(BOX(f, 0, 0, E.length_x, E.length_y), SEP(f, E.b_min, b2)))
+
+
+def _bi_n2(E):
+    q = E.length_y / E.b_max_y + 1 - R("1/1000000000")
+    return -ToInt(-q)  # ceil
+
+
+def _bi_all(E, d):
+    if _empty(d):
+        return True
+    return forall(1, lambda m: Implies(And(0 <= m, m < d.len), _bi_field_ok(E, d[m])))
+
+
+def _bi_facts(E):
+    return And(E.length_1 == E.length_x, E.length_2 == E.length_y, E.b_max_1 == E.b_max_x, E.b_max_2 == E.b_max_y, E.n_min >= 2, E.n_max == ToInt(E.length_x / E.b_min + 1),
+               E.bi_rectangle_domain.len == E.field_descriptors.len)
+
+
+_BSH = {"bi_rectangle_domain": Domain, "field_descriptors": ListOf(OpaqueOf("str")), "coordinates": FieldL, "b_1": Real, "b_2": Real, "n_2": Int, "_iter": Int, "n_1": Int}
+
+contract(f"{DM}:bi_rectangular", dict(length_x=Real, length_y=Real, b_min=Real, b_max_x=Real, b_max_y=Real, transpose=Bool, disp=Const(False)),
+         requires=[("long-side-first (what bi_rectangle_nested passes)", lambda E: And(E.length_x >= E.length_y, E.length_y > 0)),
+                   ("spacings", lambda E: And(E.b_min > 0, E.b_min <= E.b_max_x, E.b_max_y > 0, E.length_y / E.b_max_y > R("1/100000000")))],
+         loops={0: LoopSpec(invariants=[("fields-on-the-land", lambda E: And(_bi_facts(E), _bi_all(E, E.bi_rectangle_domain), Or(E._iter == 0, E._iter == 1), (E._iter == 0) == (E._k0 == 0)))],
+                            shapes=_BSH),
+                1: LoopSpec(invariants=[("fields-on-the-land", lambda E: And(_bi_facts(E), _bi_all(E, E.bi_rectangle_domain), E.n_2 == _bi_n2(E), E.b_2 == E.length_y / to_real(E.n_2 - 1),
+                                                                              E.b_1 == E.length_x / to_real(E.n_1 - 1), E.b_1 >= E.b_min, E.n_1 >= 2, E.n_2 >= 2))], shapes=_BSH),
+                2: LoopSpec(invariants=[("fields-on-the-land", lambda E: And(_bi_facts(E), _bi_all(E, E.bi_rectangle_domain), E.n_2 == _bi_n2(E), E.b_2 == E.length_y / to_real(E.n_2 - 1),
+                                                                              E.b_1 == E.length_x / to_real(E.n_1 - 1), E.b_1 >= E.b_min, E.n_1 >= 2, E.n_2 >= 2))], shapes=_BSH)},
+         ensures=[("every-field-on-the-land-with-the-two-spacings", lambda E: _bi_all(E, E.result[0])),
+                  ("descriptors-aligned", lambda E: E.result[0].len == E.result[1].len),
+                  # what bi_rectangle_nested relies on: when the requested short-side spacing divides the short side, it is the spacing used
+                  ("short-side-count-when-the-spacing-divides-the-side", lambda E: forall(1, lambda k: Implies(And(k >= 1, to_real(k) * E.b_max_y == E.length_y), _bi_n2(E) == k + 1)))],
+         returns=TupleOf(Domain, ListOf(OpaqueOf("str"))), options={"timeout_ms": 60000})
+
+
+# ---- bi_rectangle_nested: one bi_rectangular family per short-side count -------------------------------------------------------------------------------
+Nested = ListOf(Domain)
+
+
+def _nested_field_ok(E, f):
+    """on the land rectangle length_x x length_y, any two boreholes at least b_min apart along x or along y"""
+    return And(BOX(f, 0, 0, E.length_x, E.length_y), SEP(f, E.b_min, E.b_min))
+
+
+def _nested_all(E, nd):
+    if _empty(nd):
+        return True
+    return forall(2, lambda a, m: Implies(And(0 <= a, a < nd.len, 0 <= m, m < nd[a].len), _nested_field_ok(E, nd[a][m])))
+
+
+def _nested_facts(E):
+    long_x = E.length_x >= E.length_y
+    return And(E.length_1 == If(long_x, E.length_x, E.length_y), E.length_2 == If(long_x, E.length_y, E.length_x), E.b_max_1 == If(long_x, E.b_max_x, E.b_max_y),
+               E.b_max_2 == If(long_x, E.b_max_y, E.b_max_x), E.transpose == Not(long_x), E.n_min >= 2, E.n_max == ToInt(E.length_2 / E.b_min + 1),
+               E.bi_rectangle_nested_domain.len == E.field_descriptors.len)
+
+
+contract(f"{DM}:bi_rectangle_nested", dict(length_x=Real, length_y=Real, b_min=Real, b_max_x=Real, b_max_y=Real, disp=Const(False)),
+         requires=[("positive", lambda E: And(E.length_x > 0, E.length_y > 0, E.b_min > 0, E.b_min <= E.b_max_x, E.b_min <= E.b_max_y))],
+         loops={0: LoopSpec(invariants=[("families-on-the-land", lambda E: And(_nested_facts(E), _nested_all(E, E.bi_rectangle_nested_domain)))],
+                            shapes={"bi_rectangle_nested_domain": Nested, "field_descriptors": ListOf(ListOf(OpaqueOf("str"))), "bi_rectangle_domain": Domain, "f_d": ListOf(OpaqueOf("str")), "b_2": Real})},
+         ensures=[("every-field-of-every-family-on-the-land-with-spacing-at-least-b_min", lambda E: _nested_all(E, E.result[0])),
+                  ("descriptor-lists-aligned", lambda E: E.result[0].len == E.result[1].len)],
+         returns=TupleOf(Nested, ListOf(ListOf(OpaqueOf("str")))), name=f"{DM}:bi_rectangle_nested#body", options={"timeout_ms": 90000}).applies = lambda env: False
